@@ -104,13 +104,16 @@ var raceMode bool
 // hooked lists the shared fields whose accesses are wrapped in race mode:
 // "<package path suffix>.<struct type>" -> field names.
 var hooked = map[string][]string{
-	"internal/metrics.Metric":        {"LabelValues", "labelValuesMap", "Source", "Limit", "Buckets", "Keys"},
-	"internal/metrics.LabelValue":    {"Expiry", "Value", "Labels"},
-	"internal/metrics.Store":         {"Metrics"},
-	"internal/metrics/datum.String":  {"Value"},
-	"internal/metrics/datum.Buckets": {"Buckets", "Count", "Sum"},
-	"internal/runtime.Runtime":       {"handles", "programErrors"},
-	"internal/runtime/vm.VM":         {"runtimeError", "terminate", "input"},
+	"internal/metrics.Metric":          {"LabelValues", "labelValuesMap", "Source", "Limit", "Buckets", "Keys"},
+	"internal/metrics.LabelValue":      {"Expiry", "Value", "Labels"},
+	"internal/metrics.Store":           {"Metrics"},
+	"internal/metrics/datum.String":    {"Value"},
+	"internal/metrics/datum.Int":       {"Value"},
+	"internal/metrics/datum.Float":     {"Valuebits"},
+	"internal/metrics/datum.BaseDatum": {"Time"},
+	"internal/metrics/datum.Buckets":   {"Buckets", "Count", "Sum"},
+	"internal/runtime.Runtime":         {"handles", "programErrors"},
+	"internal/runtime/vm.VM":           {"runtimeError", "terminate", "input"},
 }
 
 // hookedField reports "Type.Field" if sel selects a hooked field.
